@@ -189,6 +189,11 @@ func buildC13(c c13Case) (*astisub.Subtitles, string) {
 		ln := astisub.Line{VoiceName: "v"}
 		for _, r := range cu.Runs {
 			li := astisub.LineItem{Text: r.Text, InlineStyle: &astisub.StyleAttributes{SRTBold: true}}
+			if len(cu.Runs)%2 == 0 {
+				// what a teletext or teletext-mode STL reader leaves on a run
+				two, t := 2, true
+				li.InlineStyle = &astisub.StyleAttributes{TeletextSpacesBefore: &two, TeletextSpacesAfter: &two, TeletextDoubleHeight: &t, STLBoxing: &t}
+			}
 			if r.Style != "" {
 				li.Style = ref(r.Style)
 			}
@@ -471,6 +476,22 @@ func checkC13(c c13Case) string {
 		if !reflect.DeepEqual(after[w.name], refBefore[w.name]) {
 			return fmt.Sprintf("%s: cues read back after Optimize %+v differ from those of the un-optimized list %+v", w.name, after[w.name], refBefore[w.name])
 		}
+	}
+	// the caller then drops the last cue (public field) and optimizes again: what only that cue reached goes
+	if !c.CopyRefs && len(s.Items) >= 2 {
+		full := s.Items
+		s.Items = s.Items[:len(s.Items)-1]
+		s2, r2 := reachOf(s)
+		s.Optimize()
+		if len(s.Styles) != len(s2) || len(s.Regions) != len(r2) {
+			return fmt.Sprintf("Optimize after the caller dropped the last cue keeps %d styles and %d regions, %d and %d are reachable from the remaining cues", len(s.Styles), len(s.Regions), len(s2), len(r2))
+		}
+		for id := range s.Styles {
+			if !s2[id] {
+				return fmt.Sprintf("Optimize after the caller dropped the last cue keeps style %q, which no remaining cue reaches", id)
+			}
+		}
+		s.Items = full
 	}
 	return ""
 }
